@@ -174,6 +174,10 @@ func extractC02(c *Ctx) {
 	c.Add("ctxAwareOutgoing", "List (String × Bool)", "["+strings.Join(out, ", ")+"]", strings.Join(srcs[len(inc):], " "), "ClientConn/ClientStream adapter: "+note)
 	c.Add("ctxAware", "List (String × Bool)", "ctxAwareIncoming ++ ctxAwareOutgoing", "", "all of the above")
 	extractWSEpilogue(c)
+	extractWithCtxShape(c)
+	extractPrograms(c)
+	extractWSCloseOrder(c)
+	extractHTTPSendOrder(c)
 }
 
 // WebSocket handler epilogue (C02): in both WebSocket ServeHTTP methods the handler must close `stream.done`
@@ -267,4 +271,432 @@ func extractWSEpilogue(c *Ctx) {
 	c.Add("wsEpilogueOrder", "List (String × List String)", "["+strings.Join(entries, ", ")+"]", strings.Join(srcs, " "),
 		"execution order of close(stream.done) / wg.Wait() on the way out of the WebSocket handlers")
 	c.Add("wsEpilogueSkips", "List String", LeanStrList(skips), "", "returns between the start of ReadLoop and a non-deferred epilogue")
+}
+
+// ───────────────────────── round 5: withCtx helper shape, Close, handler / Forward programs ─────────────────────────
+
+// withCtx helpers (C02 task: helper goroutines inside the LTS, lean/GB/C02/WithCtx.lean). For every withCtx function:
+//   withCtxCap        capacity N of `errChan := make(chan error, N)` (0 if the make has no capacity, 99 if not found)
+//   withCtxLocalChan  the channel is declared with := inside the function body (one channel per call)
+//   withCtxOneSend    exactly one go statement, a func literal whose body is exactly `errChan <- f()`
+//   withCtxSelect     the cases of the (only) select statement, in source order: "ctxDone" (`<-ctx.Done()` of the first
+//                     parameter), "recvErrChan" (receive from that channel), "other"
+//   withCtxDoneCalls  the calls made in the ctx.Done branch (printed callee expressions, source order)
+var c02WithCtx = []struct{ file, recv, label string }{
+	{"proxy.go", "grpcServerStream", "grpcServerStream.withCtx"},
+	{"webbridge/http.go", "", "webbridge.withCtx"},
+	{"grpcadapter/stream.go", "AdaptedClientStream", "AdaptedClientStream.withCtx"},
+}
+
+func extractWithCtxShape(c *Ctx) {
+	var caps, local, one, sel, calls, srcs []string
+	for _, w := range c02WithCtx {
+		fd := c.FuncDecl(w.file, w.recv, "withCtx")
+		capN, isLocal, oneSend := 99, false, false
+		var cases, doneCalls []string
+		src := w.file + ":?"
+		if fd != nil && fd.Body != nil {
+			src = c.Pos(fd)
+			ctx := firstParamName(fd)
+			chName := ""
+			nGo := 0
+			for _, st := range fd.Body.List {
+				switch v := st.(type) {
+				case *ast.AssignStmt:
+					if len(v.Lhs) == 1 && len(v.Rhs) == 1 {
+						if call, ok := v.Rhs[0].(*ast.CallExpr); ok {
+							if id, ok := call.Fun.(*ast.Ident); ok && id.Name == "make" && len(call.Args) >= 1 {
+								if _, ok := call.Args[0].(*ast.ChanType); ok {
+									if l, ok := v.Lhs[0].(*ast.Ident); ok {
+										chName = l.Name
+										isLocal = v.Tok == token.DEFINE
+										capN = 0
+										if len(call.Args) == 2 {
+											if bl, ok := call.Args[1].(*ast.BasicLit); ok {
+												fmt.Sscanf(bl.Value, "%d", &capN)
+											} else {
+												capN = 98
+											}
+										}
+									}
+								}
+							}
+						}
+					}
+				case *ast.GoStmt:
+					nGo++
+					if fl, ok := v.Call.Fun.(*ast.FuncLit); ok && len(fl.Body.List) == 1 {
+						if ss, ok := fl.Body.List[0].(*ast.SendStmt); ok {
+							if id, ok := ss.Chan.(*ast.Ident); ok && id.Name == chName && chName != "" {
+								if _, ok := ss.Value.(*ast.CallExpr); ok {
+									oneSend = true
+								}
+							}
+						}
+					}
+				case *ast.SelectStmt:
+					for _, cl := range v.Body.List {
+						cc, ok := cl.(*ast.CommClause)
+						if !ok {
+							continue
+						}
+						kind := "other"
+						var e ast.Expr
+						switch cm := cc.Comm.(type) {
+						case *ast.ExprStmt:
+							e = cm.X
+						case *ast.AssignStmt:
+							if len(cm.Rhs) == 1 {
+								e = cm.Rhs[0]
+							}
+						}
+						if ue, ok := e.(*ast.UnaryExpr); ok && ue.Op == token.ARROW {
+							if id, ok := ue.X.(*ast.Ident); ok && id.Name == chName && chName != "" {
+								kind = "recvErrChan"
+							} else if call, ok := ue.X.(*ast.CallExpr); ok {
+								if se, ok := call.Fun.(*ast.SelectorExpr); ok && se.Sel.Name == "Done" {
+									if id, ok := se.X.(*ast.Ident); ok && id.Name == ctx && ctx != "" {
+										kind = "ctxDone"
+									}
+								}
+							}
+						}
+						cases = append(cases, kind)
+						if kind == "ctxDone" {
+							for _, b := range cc.Body {
+								ast.Inspect(b, func(n ast.Node) bool {
+									if call, ok := n.(*ast.CallExpr); ok {
+										doneCalls = append(doneCalls, c.Src(call.Fun))
+									}
+									return true
+								})
+							}
+						}
+					}
+				}
+			}
+			if nGo != 1 {
+				oneSend = false
+			}
+		}
+		caps = append(caps, fmt.Sprintf("(%s, %d)", LeanStr(w.label), capN))
+		local = append(local, fmt.Sprintf("(%s, %s)", LeanStr(w.label), LeanBool(isLocal)))
+		one = append(one, fmt.Sprintf("(%s, %s)", LeanStr(w.label), LeanBool(oneSend)))
+		sel = append(sel, fmt.Sprintf("(%s, %s)", LeanStr(w.label), LeanStrList(cases)))
+		calls = append(calls, fmt.Sprintf("(%s, %s)", LeanStr(w.label), LeanStrList(doneCalls)))
+		srcs = append(srcs, src)
+	}
+	s := strings.Join(srcs, " ")
+	c.Add("withCtxCap", "List (String × Nat)", "["+strings.Join(caps, ", ")+"]", s, "capacity of the result channel of every withCtx helper")
+	c.Add("withCtxLocalChan", "List (String × Bool)", "["+strings.Join(local, ", ")+"]", s, "the result channel is made inside withCtx (:=), one per call")
+	c.Add("withCtxOneSend", "List (String × Bool)", "["+strings.Join(one, ", ")+"]", s, "the helper goroutine is exactly `errChan <- f()`")
+	c.Add("withCtxSelect", "List (String × List String)", "["+strings.Join(sel, ", ")+"]", s, "cases of the select of withCtx")
+	c.Add("withCtxDoneCalls", "List (String × List String)", "["+strings.Join(calls, ", ")+"]", s, "calls in the ctx.Done branch of withCtx")
+
+	// AdaptedClientStream.Close / closeFunc
+	var closeFacts []string
+	if fd := c.FuncDecl("grpcadapter/stream.go", "AdaptedClientStream", "Close"); fd != nil && fd.Body != nil {
+		for _, st := range fd.Body.List {
+			closeFacts = append(closeFacts, "Close: "+c.Src(st))
+		}
+	}
+	if fd := c.FuncDecl("grpcadapter/conn.go", "AdaptedClientConn", "Stream"); fd != nil && fd.Body != nil {
+		ast.Inspect(fd.Body, func(n ast.Node) bool {
+			if kv, ok := n.(*ast.KeyValueExpr); ok {
+				if id, ok := kv.Key.(*ast.Ident); ok && id.Name == "closeFunc" {
+					closeFacts = append(closeFacts, "closeFunc: "+c.Src(kv.Value))
+				}
+			}
+			if as, ok := n.(*ast.AssignStmt); ok && len(as.Lhs) == 2 && len(as.Rhs) == 1 {
+				if id, ok := as.Lhs[1].(*ast.Ident); ok && id.Name == "cancel" {
+					if call, ok := as.Rhs[0].(*ast.CallExpr); ok {
+						closeFacts = append(closeFacts, "cancel: "+c.Src(call.Fun))
+					}
+				}
+			}
+			return true
+		})
+	}
+	c.Add("clientStreamClose", "List String", LeanStrList(closeFacts), "grpcadapter/stream.go grpcadapter/conn.go",
+		"body of AdaptedClientStream.Close, the value of closeFunc and where its cancel comes from")
+}
+
+// Handler / Forward "programs": the top-level statements of a function as tokens (kind, events) in source order.
+//   ("defer", evs)  a defer statement (direct call, or a func literal: events of its statements in source order)
+//   ("ret", evs)    a statement that contains a return (outside func literals); evs = the events inside it
+//   ("do", evs)     any other statement with at least one event
+// Events: see c02Classify. lean/GB/C02/Paths.lean turns a program into the event sequence of every way out.
+func c02Classify(c *Ctx, call *ast.CallExpr) string {
+	fun := c.Src(call.Fun)
+	switch {
+	case fun == "close" && len(call.Args) == 1 && strings.HasSuffix(c.Src(call.Args[0]), ".done"):
+		return "closeDone"
+	case fun == "close":
+		return ""
+	case fun == "wg.Wait":
+		return "wgWait"
+	case fun == "wg.Done":
+		return "wgDone"
+	case fun == "cancel":
+		return "cancel"
+	case fun == "outgoing.Close":
+		return "outClose"
+	case strings.HasSuffix(fun, ".NetConn().Close"):
+		return "netClose"
+	case strings.HasSuffix(fun, ".forwarder.Forward"):
+		return "forward"
+	case strings.HasSuffix(fun, ".Upgrade"):
+		return "upgrade"
+	case strings.HasSuffix(fun, ".finish"):
+		return "finish"
+	case fun == "closeGracefully":
+		return "sendClose"
+	case strings.HasSuffix(fun, ".sendTrailer"):
+		return "sendTrailer"
+	case fun == "writeError" || fun == "writeTrailerWithStatus":
+		return "respond"
+	case strings.HasSuffix(fun, ".ReadLoop"):
+		return "readLoop"
+	}
+	return ""
+}
+
+func c02Events(c *Ctx, n ast.Node) (evs []string, hasRet bool) {
+	ast.Inspect(n, func(x ast.Node) bool {
+		switch v := x.(type) {
+		case *ast.FuncLit:
+			return false
+		case *ast.ReturnStmt:
+			hasRet = true
+		case *ast.CallExpr:
+			if k := c02Classify(c, v); k != "" {
+				evs = append(evs, k)
+			}
+		}
+		return true
+	})
+	return
+}
+
+func c02Program(c *Ctx, fd *ast.FuncDecl) (toks []string, goDefers [][]string) {
+	tok := func(kind string, evs []string) string {
+		return fmt.Sprintf("(%s, %s)", LeanStr(kind), LeanStrList(evs))
+	}
+	for _, st := range fd.Body.List {
+		switch v := st.(type) {
+		case *ast.DeferStmt:
+			var evs []string
+			if fl, ok := v.Call.Fun.(*ast.FuncLit); ok {
+				for _, inner := range fl.Body.List {
+					e, _ := c02Events(c, inner)
+					evs = append(evs, e...)
+				}
+			} else if k := c02Classify(c, v.Call); k != "" {
+				evs = []string{k}
+			}
+			if len(evs) > 0 {
+				toks = append(toks, tok("defer", evs))
+			}
+		case *ast.GoStmt:
+			if fl, ok := v.Call.Fun.(*ast.FuncLit); ok {
+				// execution order inside the goroutine: plain events, then its defers in reverse order
+				var plain []string
+				var defs []string
+				for _, inner := range fl.Body.List {
+					if d, ok := inner.(*ast.DeferStmt); ok {
+						if k := c02Classify(c, d.Call); k != "" {
+							defs = append([]string{k}, defs...)
+						}
+						continue
+					}
+					e, _ := c02Events(c, inner)
+					plain = append(plain, e...)
+				}
+				all := append(plain, defs...)
+				goDefers = append(goDefers, all)
+				isRL := false
+				for _, e := range plain {
+					if e == "readLoop" {
+						isRL = true
+					}
+				}
+				if isRL {
+					toks = append(toks, tok("do", []string{"goReadLoop"}))
+				} else {
+					toks = append(toks, tok("do", []string{"goPump"}))
+				}
+			}
+		default:
+			evs, hasRet := c02Events(c, st)
+			if hasRet {
+				toks = append(toks, tok("ret", evs))
+			} else if len(evs) > 0 {
+				toks = append(toks, tok("do", evs))
+			}
+		}
+	}
+	return
+}
+
+func extractPrograms(c *Ctx) {
+	type h struct{ file, recv, name string }
+	var entries, gos, srcs []string
+	for _, x := range []h{
+		{"webbridge/http.go", "TranscodedHTTPBridge", "ServeHTTP"},
+		{"webbridge/grpcweb.go", "GRPCWebBridge", "ServeHTTP"},
+		{"webbridge/websocket.go", "TranscodedWebSocketBridge", "ServeHTTP"},
+		{"webbridge/grpcweb.go", "GRPCWebSocketBridge", "ServeHTTP"},
+		{"grpcadapter/forwarder.go", "ProxyForwarder", "Forward"},
+	} {
+		label := x.recv + "." + x.name
+		fd := c.FuncDecl(x.file, x.recv, x.name)
+		if fd == nil || fd.Body == nil {
+			entries = append(entries, fmt.Sprintf("(%s, [(\"missing\", [])])", LeanStr(label)))
+			srcs = append(srcs, x.file+":?")
+			continue
+		}
+		toks, gd := c02Program(c, fd)
+		entries = append(entries, fmt.Sprintf("(%s, [%s])", LeanStr(label), strings.Join(toks, ", ")))
+		var g []string
+		for _, d := range gd {
+			g = append(g, LeanStrList(d))
+		}
+		gos = append(gos, fmt.Sprintf("(%s, [%s])", LeanStr(label), strings.Join(g, ", ")))
+		srcs = append(srcs, c.Pos(fd))
+	}
+	c.Add("c02Programs", "List (String × List (String × List String))", "["+strings.Join(entries, ", ")+"]", strings.Join(srcs, " "),
+		"top-level statements of the four web handlers and of Forward as (kind, events) tokens: defer / ret (contains a return) / do")
+	c.Add("c02GoBodies", "List (String × List (List String))", "["+strings.Join(gos, ", ")+"]", strings.Join(srcs, " "),
+		"per go statement of those functions: the events inside the goroutine in execution order (plain, then its defers reversed)")
+
+	// every place where an outgoing stream is created
+	var sites []string
+	for _, f := range []string{"grpcadapter/forwarder.go", "proxy.go", "webbridge/http.go", "webbridge/websocket.go", "webbridge/grpcweb.go", "webbridge/webbridge.go"} {
+		af := c.File(f)
+		if af == nil {
+			continue
+		}
+		for _, d := range af.Decls {
+			fd, ok := d.(*ast.FuncDecl)
+			if !ok || fd.Body == nil {
+				continue
+			}
+			ast.Inspect(fd.Body, func(n ast.Node) bool {
+				if call, ok := n.(*ast.CallExpr); ok {
+					if s := c.Src(call.Fun); strings.HasSuffix(s, "Outgoing.Stream") || strings.HasSuffix(s, "conn.Stream") {
+						sites = append(sites, f+":"+fd.Name.Name)
+					}
+				}
+				return true
+			})
+		}
+	}
+	c.Add("c02StreamSites", "List String", LeanStrList(sites), "", "functions of the forwarder / entry points that create an outgoing stream")
+}
+
+// Order of the connection-deadline / lock / write operations in the two functions that start the WebSocket closing
+// handshake (C02-m9, D35): tokens in source order — "SetDeadline", "Lock" (a mutex Lock), "WriteMessage",
+// "closeGracefully". The WsStall model (lean/GB/C02/WsStall.lean) needs the deadline to be armed before anything
+// that can wait for a blocked writer.
+func extractWSCloseOrder(c *Ctx) {
+	var entries, srcs []string
+	for _, x := range []struct{ file, recv, name string }{
+		{"webbridge/websocket.go", "", "closeGracefully"},
+		{"webbridge/grpcweb.go", "gRPCWebSocketStream", "sendTrailer"},
+	} {
+		label := x.name
+		if x.recv != "" {
+			label = x.recv + "." + x.name
+		}
+		var evs []string
+		src := x.file + ":?"
+		if fd := c.FuncDecl(x.file, x.recv, x.name); fd != nil && fd.Body != nil {
+			src = c.Pos(fd)
+			ast.Inspect(fd.Body, func(n ast.Node) bool {
+				call, ok := n.(*ast.CallExpr)
+				if !ok {
+					return true
+				}
+				fun := c.Src(call.Fun)
+				switch {
+				case strings.HasSuffix(fun, ".SetDeadline") || strings.HasSuffix(fun, ".SetWriteDeadline"):
+					evs = append(evs, "SetDeadline")
+				case strings.HasSuffix(fun, ".Lock"):
+					evs = append(evs, "Lock")
+				case strings.HasSuffix(fun, ".WriteMessage") || strings.HasSuffix(fun, ".WriteClose") || strings.HasSuffix(fun, ".Write"):
+					evs = append(evs, "WriteMessage")
+				case fun == "closeGracefully":
+					evs = append(evs, "closeGracefully")
+				}
+				return true
+			})
+		} else {
+			evs = []string{"<not found>"}
+		}
+		entries = append(entries, fmt.Sprintf("(%s, %s)", LeanStr(label), LeanStrList(evs)))
+		srcs = append(srcs, src)
+	}
+	c.Add("wsCloseOrder", "List (String × List String)", "["+strings.Join(entries, ", ")+"]", strings.Join(srcs, " "),
+		"source order of SetDeadline / mutex Lock / WriteMessage / closeGracefully in the functions that start the WebSocket closing handshake")
+}
+
+// HTTP handler epilogue (lean/GB/C02/HttpEpilogue.lean): the response-side critical sections of the two HTTP stream
+// adapters. Tokens in source order: "waitRead" (<-s.readCh), "Lock" / "Unlock" (s.mu), "ifFinishedReturn" (an if on
+// s.finished whose body returns), "setFinished" (s.finished = true), "Write" (ResponseWriter.Write / Flush /
+// respstream.Transcode — everything that puts bytes on the response).
+func extractHTTPSendOrder(c *Ctx) {
+	var entries, srcs []string
+	for _, x := range []struct{ file, recv, name string }{
+		{"webbridge/http.go", "httpStream", "send"},
+		{"webbridge/grpcweb.go", "gRPCWebStream", "send"},
+		{"webbridge/http.go", "httpStream", "finish"},
+		{"webbridge/grpcweb.go", "gRPCWebStream", "finish"},
+	} {
+		label := x.recv + "." + x.name
+		var evs []string
+		src := x.file + ":?"
+		if fd := c.FuncDecl(x.file, x.recv, x.name); fd != nil && fd.Body != nil {
+			src = c.Pos(fd)
+			ast.Inspect(fd.Body, func(n ast.Node) bool {
+				switch v := n.(type) {
+				case *ast.DeferStmt:
+					if strings.HasSuffix(c.Src(v.Call.Fun), ".mu.Unlock") {
+						evs = append(evs, "deferUnlock")
+						return false
+					}
+				case *ast.UnaryExpr:
+					if v.Op == token.ARROW && strings.HasSuffix(c.Src(v.X), ".readCh") {
+						evs = append(evs, "waitRead")
+					}
+				case *ast.IfStmt:
+					if strings.HasSuffix(c.Src(v.Cond), ".finished") && len(v.Body.List) > 0 {
+						if _, ok := v.Body.List[len(v.Body.List)-1].(*ast.ReturnStmt); ok {
+							evs = append(evs, "ifFinishedReturn")
+						}
+					}
+				case *ast.AssignStmt:
+					if len(v.Lhs) == 1 && len(v.Rhs) == 1 && strings.HasSuffix(c.Src(v.Lhs[0]), ".finished") && c.Src(v.Rhs[0]) == "true" {
+						evs = append(evs, "setFinished")
+					}
+				case *ast.CallExpr:
+					fun := c.Src(v.Fun)
+					switch {
+					case strings.HasSuffix(fun, ".mu.Lock"):
+						evs = append(evs, "Lock")
+					case strings.HasSuffix(fun, ".mu.Unlock"):
+						evs = append(evs, "Unlock")
+					case strings.HasSuffix(fun, ".Write") || strings.HasSuffix(fun, ".Flush") || strings.HasSuffix(fun, ".respstream.Transcode"):
+						evs = append(evs, "Write")
+					}
+				}
+				return true
+			})
+		} else {
+			evs = []string{"<not found>"}
+		}
+		entries = append(entries, fmt.Sprintf("(%s, %s)", LeanStr(label), LeanStrList(evs)))
+		srcs = append(srcs, src)
+	}
+	c.Add("httpSendOrder", "List (String × List String)", "["+strings.Join(entries, ", ")+"]", strings.Join(srcs, " "),
+		"source order of readCh wait / mutex / finished check / response writes in send() and finish() of the HTTP stream adapters")
 }
